@@ -15,15 +15,16 @@ REGISTRY = {
     'id': 'C11',
     'text': 'Lean theorems about a hand-written model of ProFormaAnnotation.slice/reverse/shift/shuffle/sort_residues/split: '
             'residues (with their modifications) are reversed / rotated / permuted / stably sorted / extracted, globals and termini '
-            'stay or swap, reverse is an involution, shift k then -k and shift by the length are identities (without intervals), '
+            'stay or swap, reverse is an involution, shift by a multiple of the length is the identity, shift k then -k is the identity and '
+            'shifted intervals cover the rotated residues when no interval wraps around, '
             'reversed intervals cover the mirrored residues, slice composes, split pieces concatenate to the peptide, every '
             'additive weight (mass) is invariant. The model is tied to /repo by differential correspondence over generated '
             'annotations (length 0..25, all modification kinds, intervals at start/middle/end/adjacent, every shift in [-2n,2n], '
             'all 0<=i<=j<=n, inplace False/True) and every clause is also evaluated directly on the implementation',
     'note': 'trusted: Lean kernel, axioms propext/Classical.choice/Quot.sound, the correspondence harness and the wire codec, '
             'random.shuffle (its permutation is read from the implementation and fed to the model), the parser/serializer and '
-            'mass() are used as black boxes by the oracle (re-parse and mass clauses). Known finding: shift moves intervals '
-            'that end at the last residue / wrap around (KF-C11-shift-intervals)',
+            'mass() are used as black boxes by the oracle (re-parse and mass clauses). Known finding: an interval that wraps '
+            'around after a shift cannot be represented and is replaced by another one (KF-C11-shift-interval-wraparound)',
     'technique': 'Lean 4 proof about executable model + differential correspondence',
 }
 
@@ -139,6 +140,12 @@ def o_shift(c):
         return f'residues with their mods are not rotated by {e}: {cc.res(r)}'
     if cc.glob(r) != cc.glob(a) or cc.term(r) != cc.term(a):
         return 'global or terminal annotations changed'
+    # intervals that do not wrap around after the rotation cover the rotated residues, with their mods and flag
+    exp = Counter((s - e if e <= s else s - e + n, t - e if e <= s else t - e + n, amb, m)
+                  for s, t, amb, m in cc.ivs(a) if 0 <= s < t <= n and not (s < e < t))
+    if exp - Counter(cc.ivs(r)):
+        return (f'shift by {k}: interval(s) {sorted((exp - Counter(cc.ivs(r))).elements())} expected (rotated, not wrapping), '
+                f'got {cc.ivs(r)} from {cc.ivs(a)}')
     back = r.shift(-k)
     if cc.res(back) != ra or cc.glob(back) != cc.glob(a) or cc.term(back) != cc.term(a):
         return f'shift {k} then {-k} is not the identity on residues/globals/termini'
@@ -150,6 +157,13 @@ def o_shift(c):
     return None
 
 
+def wrapping(a, k):
+    """intervals of `a` that have the rotation point of shift(k) strictly inside"""
+    n = len(a._sequence)
+    e = k % n
+    return [iv for iv in (a._intervals or []) if iv.start < e < iv.end]
+
+
 def o_shift_identity(c):
     """shift k then -k, and shift by a multiple of the length, as identities on the whole annotation (intervals included)"""
     _, d, k = c[:3]
@@ -158,10 +172,10 @@ def o_shift_identity(c):
     r = a.shift(k)
     back = r.shift(-k)
     odd = cc.is_odd(a)   # the library == tells [] from None; shift normalises [] to None
-    if cc.norm_dump(back) != cc.norm_dump(a) or not (odd or back == a):
-        return f'shift-identity-intervals: shift {k} then {-k} gives intervals {cc.ivs(back)} instead of {cc.ivs(a)}'
     if k % n == 0 and (cc.norm_dump(r) != cc.norm_dump(a) or not (odd or r == a)):
-        return f'shift-identity-intervals: shift by {k} (a multiple of the length {n}) gives intervals {cc.ivs(r)} instead of {cc.ivs(a)}'
+        return f'shift by {k} (a multiple of the length {n}) gives intervals {cc.ivs(r)} instead of {cc.ivs(a)}'
+    if cc.norm_dump(back) != cc.norm_dump(a) or not (odd or back == a):
+        return f'shift-wraparound: shift {k} then {-k} gives intervals {cc.ivs(back)} instead of {cc.ivs(a)}'
     return None
 
 
@@ -507,15 +521,16 @@ def run(chk):
 
 
 def classify(f):
-    """KF-C11-shift-intervals: only failures of the whole-annotation identity clauses of shift, on annotations with intervals,
-    that disappear when the intervals are removed"""
-    if f['oracle'] in ('shift_identity', 'corpus:shift_identity') and str(f['detail']).startswith('shift-identity-intervals:'):
+    """KF-C11-shift-interval-wraparound: only failures of the shift k / -k identity on annotations in which some interval has
+    the rotation point strictly inside, and that disappear when exactly those wrapping intervals are removed"""
+    if f['oracle'] in ('shift_identity', 'corpus:shift_identity') and str(f['detail']).startswith('shift-wraparound:'):
         c = f['case']
         a = annot.undump(c[1])
-        if a._intervals:
-            a._intervals = None
+        w = wrapping(a, c[2])
+        if w:
+            a._intervals = [iv for iv in a._intervals if not any(iv is x for x in w)] or None
             if o_shift_identity(('shift', annot.dump(a, sort_internal=False), c[2])) is None:
-                return 'KF-C11-shift-intervals'
+                return 'KF-C11-shift-interval-wraparound'
     return None
 
 
